@@ -325,6 +325,23 @@ def handle (op : String) : Option Handler :=
   | "c07.parse_members" => some fun j => do
       let kids ← (← (← j.getObjVal? "kids").getArr?).toList.mapM xmlOf
       pure (exJson memberListJson (parseMembers (← strOf j "ns") kids))
+  | "c07.header_history" => some fun j => do
+      -- a history of parse() calls on one reader: the header of each namespace it returns
+      let docs ← (← (← j.getObjVal? "docs").getArr?).toList.mapM (fun d => do
+        (← d.getArr?).toList.mapM (fun it => do
+          let k ← (← it.getObjVal? "k").getStr?
+          match k with
+          | "include" => pure (HItem.incl (← strOf it "name") (← strOf it "version"))
+          | "package" => pure (HItem.package (← strOf it "name"))
+          | "c_include" => pure (HItem.cInclude (← strOf it "name"))
+          | "doc_format" => pure (HItem.docFormat (← strOf it "name"))
+          | _ => throw s!"unknown header item {k}"))
+      let out := runHistory GIVerif.Gen.GirReaderState.parseTreeResets hInit docs
+      pure (Json.arr (out.map (fun s => Json.mkObj [
+        ("includes", Json.arr (s.includes.map (fun p => Json.arr #[jstr p.1, jstr p.2])).toArray),
+        ("packages", Json.arr (s.packages.map jstr).toArray),
+        ("c_includes", Json.arr (s.cIncludes.map jstr).toArray),
+        ("doc_format", jstr s.docFormat)])).toArray)
   | "c07.show_int" => some fun j => do pure (jstr (showInt (← intOf j "n")))
   | "c07.parse_int" => some fun j => do
       pure (exJson (fun (i : Int) => toJson i) (parseInt (← strOf j "s")))
